@@ -24,7 +24,7 @@ TRUSTED = ["vf/ic10_vm.py region monitor and divergence detector", "vf/pyref.py 
 
 def plan(tier, seed):
     q = tier == "quick"
-    tasks = pool.batches("terminating", 500 if q else 6000, 10) + pool.batches("endless", 250 if q else 4000, 10) + pool.batches("tail", 200 if q else 3000, 10) + pool.batches("inlined", 200 if q else 2000, 10) + pool.batches("corpus", len(workload.corpus()), 2)
+    tasks = pool.batches("terminating", 400 if q else 6000, 10) + pool.batches("endless", 250 if q else 4000, 10) + pool.batches("tail", 200 if q else 3000, 10) + pool.batches("inlined", 200 if q else 2000, 10) + pool.batches("corpus", len(workload.corpus()), 2) + pool.batches("modules", 120 if q else 2000, 10)
     for hz in ("tail_early_return",):
         tasks += pool.batches(f"defect:{hz}", 30 if q else 300, 10)
     return dict(tasks=tasks, nworkers=14, time_cap=85 if q else 880)
@@ -55,6 +55,10 @@ def gen_case(task, i):
         src = gen_shapes.tail_program(r)
     elif st == "corpus":
         src = workload.corpus_case(i)["src"]
+    elif st == "modules":
+        from . import c13
+
+        src = c13.multi_with_main_function(i, r, same_name=0.8)
     elif st == "endless":
         src = gen_shapes.echo_program(r) if i % 2 else workload.gen_program(ID, st, i)[0]["src"]
     else:
